@@ -52,7 +52,7 @@ def sha(path):
 
 def run_ddsmt(workdir, text, spec, opts, mode='blackbox', plan=None, spec_cc=None,
               ext='.smt2', hashseed='0', wall_limit=300, sigint_after=None, sigint_after_tests=None, verbosity=('-v', ),
-              infile_name=None, keep=False, tmp_base=None):
+              infile_name=None, keep=False, tmp_base=None, extra_env=None):
     """Run ddSMT once.  ``opts`` as for opts_to_argv (+ 'timeout' recommended).
 
     mode 'blackbox': bin/ddsmt as a subprocess.
@@ -98,6 +98,7 @@ def run_ddsmt(workdir, text, spec, opts, mode='blackbox', plan=None, spec_cc=Non
     env = dict(os.environ)
     env.update(TMPDIR=tmpdir, PYTHONHASHSEED=str(hashseed), VERIF_REPO=REPO,
                PYTHONDONTWRITEBYTECODE='1')
+    env.update(extra_env or {})
     if mode == 'blackbox':
         full = [PY, os.path.join(REPO, 'bin', 'ddsmt')] + argv
     else:
@@ -244,7 +245,7 @@ def golden_of(spec, text, role='main'):
 
 def outcome(ev):
     """evaluate() result -> (exit, out, err) as ddSMT's checker sees it."""
-    if ev['fault'] in ('s', 't', 'p', 'a', 'm', 'w'):
+    if ev['fault'] in ('s', 't', 'h', 'p', 'a', 'm', 'w'):
         return (None, None, None)
     if ev['fault'] == 'v':
         return (-11, '', '')
